@@ -149,7 +149,7 @@ TEXT["C10"] = {
              "leave storage untouched, and after any history every group in any listing was created by an accepted commit or ownership update (storage_tracks_only_accepted); the offsets-topic "
              "reader forwards no offset, ownership, clear or delete request for a rejected group for any bytes (kafka_reader_forwards_only_accepted — false before the repair of the metadata path, "
              "found by the check); a notifier module is never notified, open or close, about a group its lists reject. Tie: storage, decode and notifier streams with list pairs; regexp matching is an oracle bit. "
-             "The Zookeeper reader's gate is not yet tied by a stream (see note)."),
+             "The Zookeeper reader's gate is not yet tied by a stream (see note). Zookeeper reader: zk_reader_forwards_only_accepted (for every tree, op — Start, any later change, the re-initialisation after a session expiry — and verdict function of the lists, nothing is forwarded for a rejected group) and zk_reader_forwards_accepted_commits, over Model/ZkReader.lean, tied by the zkreader stream."),
     "note": ("Trusted: Lean kernel + standard axioms; harness; regexp engine as oracle. Partial: the Zookeeper reader path has a single accept gate (resetGroupListWatchAndAdd) that is read, not "
              "modelled; ZK watch dynamics are not modelled."),
 }
